@@ -449,6 +449,8 @@ for sg in ('u', 'i'):
     c10_str(I(8, 1), sg, 5, 10, 10, 'quick', core=True)
     c10_str(I(8, 1), sg, 4, 36, 36, 'quick')
     c10_str(I(8, 1), sg, 3, 2, 36, 'quick')
+    c10_str(I(8, 1), sg, 10, 10, 10, 'thorough', cap=7200)
+    c10_str(I(8, 1), sg, 10, 3, 3, 'thorough', cap=7200)
     c10_str(I(8, 1), sg, 6, 4, 4, 'thorough')
     c10_str(I(8, 1), sg, 5, 8, 8, 'thorough')
     c10_str(I(8, 1), sg, 7, 3, 3, 'thorough')
@@ -555,19 +557,25 @@ def c16_pair(macro, a, b, sg, tier, extra='', cap=1200, core=True, label=''):
 
 
 for sg in ('u', 'i'):
-    for a, b, tier in ((I(8, 4), I(32, 1), 'quick'), (I(8, 4), I(16, 2), 'quick'), (I(8, 8), I(64, 1), 'quick'), (I(16, 4), I(32, 2), 'quick'), (I(8, 16), I(64, 2), 'quick'),
+    for a, b, tier in ((I(8, 4), I(32, 1), 'quick'), (I(8, 4), I(16, 2), 'quick'), (I(8, 8), I(64, 1), 'quick'), (I(16, 4), I(32, 2), 'quick'), (I(8, 16), I(64, 2), 'quick128'),
                        (I(8, 2), I(16, 1), 'quick'), (I(8, 6), I(16, 3), 'thorough'), (I(8, 8), I(16, 4), 'thorough'), (I(32, 2), I(64, 1), 'thorough'), (I(32, 4), I(64, 2), 'thorough'),
                        (I(16, 8), I(64, 2), 'thorough'), (I(8, 12), I(32, 3), 'thorough')):
-        c16_pair('c16_same_width_lin', a, b, sg, tier, label='equal width, two digit types: add/sub/neg/cmp/bitwise/counts/swap/reverse/saturating/casts')
-        c16_pair('c16_same_width_shift', a, b, sg, tier, label='equal width, two digit types: shl/shr/rotate/unbounded shifts, amount over all of u32')
+        c16_pair('c16_same_width_lin', a, b, sg, 'quick' if tier == 'quick128' else tier, label='equal width, two digit types: add/sub/neg/cmp/bitwise/counts/swap/reverse/saturating/casts')
+        c16_pair('c16_same_width_shift', a, b, sg, 'thorough' if tier == 'quick128' else tier, cap=3600, label='equal width, two digit types: shl/shr/rotate/unbounded shifts, amount over all of u32')
     c16_pair('c16_same_width_mul', I(8, 2), I(16, 1), sg, 'thorough', extra=', any', cap=7200, core=False, label='equal width 16: mul/div/rem/pow full operands')
     c16_pair('c16_same_width_mul', I(8, 2), I(16, 1), sg, 'quick', extra=', any_alpha', cap=1800, core=False, label='equal width 16: mul/div/rem/pow, u8 digits over the boundary alphabet')
-    for a, b in ((I(8, 4), I(32, 1)), (I(16, 2), I(32, 1)), (I(8, 8), I(64, 1))):
+    for a, b in ((I(16, 2), I(32, 1)), (I(8, 8), I(64, 1))):
         c16_pair('c16_same_width_mul', a, b, sg, 'thorough', extra=', any_alpha', cap=5400, core=False, label='equal width: mul/div/rem/pow, alphabet operands')
     for a, b, mul, tier in ((I(8, 1), I(8, 2), 'true', 'quick'), (I(8, 1), I(16, 1), 'true', 'thorough'), (I(8, 2), I(8, 3), 'false', 'quick'), (I(16, 1), I(32, 1), 'false', 'quick'),
                             (I(64, 1), I(64, 2), 'false', 'quick'), (I(8, 3), I(64, 1), 'false', 'thorough'), (I(32, 1), I(8, 5), 'false', 'thorough'), (I(64, 2), I(64, 3), 'false', 'thorough')):
         c16_pair('c16_extend', a, b, sg, tier, extra=f', {mul}', cap=3600, core=(mul == 'false'),
                  label='zero-/sign-extension commutes with add/sub/cmp/shl' + (' and mul/div/rem/pow' if mul == 'true' else ''))
+for sg in ('u', 'i'):
+    for a, b, L, tier in ((I(8, 1), I(8, 2), 5, 'quick'), (I(8, 2), I(16, 1), 4, 'thorough'), (I(8, 1), I(64, 1), 5, 'thorough')):
+        A, B = (a.U, b.U) if sg == 'u' else (a.I, b.I)
+        add(H('C16', f"c16_parse_{sg}_{a.tag}_{b.tag}", 'c16_parse', f"{L + 2}, {A}, {a.digit}, {a.n}, {B}, {b.digit}, {b.n}, {L}", tier=tier, cap=3600, core=False, mem_gb=8,
+              inst=f"{a.label} vs {b.label}", funcs='decimal from_str_radix commutes with extension / is independent of the digit type', bound=f'all ASCII strings of length 0..={L}'))
+    c16_pair('c16_same_width_mul', I(8, 4), I(32, 1), sg, 'thorough', extra=', any_alpha', cap=7200, core=False, label='equal width 32: mul/div/rem/pow, u8 digits over the boundary alphabet')
 for tier, insts in (('quick', LIN_Q), ('thorough', LIN_T + [I(64, 17), I(8, 40)])):
     for i in insts:
         add(H('C16', f"c16_consts_{i.tag}", 'c16_consts', f"{i.n + 2}, {i.std().rsplit(',', 1)[0]}", tier=tier, inst=i.label,
